@@ -446,6 +446,17 @@ pub fn run_with<C: VCtx>(ctx: &C, zkp: &Zkp<C>, op: &str, a: &[Value]) -> Value 
                 ),
             }
         }
+        // verifier with LOCALLY derived generators: [pk, seed, proof_bytes, es, e_primes, label] (N + 1 = es.len() + 1 generators)
+        "check_proof_localgens" => {
+            let pk = PublicKey::from_element(&C::e_in(&a[0]), ctx);
+            let es = cs_in::<C>(&a[3]);
+            let gens = ctx.generators(es.len() + 1, &hex_in(&a[1]));
+            let sh = Shuffler::new(&pk, &gens, ctx);
+            match ShuffleProof::<C>::strand_deserialize(&hex_in(&a[2])) {
+                Err(_) => json!("de_err"),
+                Ok(proof) => res(sh.check_proof(&proof, &es, &cs_in::<C>(&a[4]), &hex_in(&a[5])), |b| json!(b)),
+            }
+        }
         // ONE Shuffler value answering a sequence of verifications: [pk, gens, [[proof_bytes, es, e_primes, label], ...]]
         "check_proof_seq" => {
             let pk = PublicKey::from_element(&C::e_in(&a[0]), ctx);
